@@ -40,6 +40,12 @@ CHECKS = {
    note="Trusted: TLC, the hook placement (task_end is emitted by the task after its body and before its join handle is ready). A corrupted trace (task_end moved after wait_all_end) must be rejected in every run (self-test). "
         "Stopped jobs, process groups, terminals not modelled.",
    ref="DESIGN.md section 6 C17"),
+ "C09": dict(level=MC, thorough=True, tech="TLA+ Env.tla (scope stack of global / function / temporary-assignment frames with tombstones; attributes shaping every writer; readonly refusing every writer) explored by TLC over every program of L steps of four step alphabets (MC_Env.tla), with ReadonlyStable and EnterLeaveNeutral checked in every state; each program replayed in brush with bash audit, observing value, attribute letters and a child process's environment after every step",
+   text="A program is a flat sequence of steps (eight kinds of writers, local / declare / export / readonly with and without values, unset, function entry, function entry under NAME=v, return); TLC enumerates every program of 4 (thorough 5) steps per profile "
+        "(~130k, sampled to ~17k in quick), checks on every reachable scope stack that no step changes a readonly variable and that entering and leaving a function is neutral, and prints the observation after every step; the driver compares them with "
+        "${x-U}, declare -p and the environment received by a child (envq) in bash and in brush.",
+   note="Trusted: TLC, bash 5.2.15 (programs where bash itself departs from the model, ~8%, are not judged - mostly bash's tempenv propagation rules), the envq helper. Statuses of the steps are not compared, only the state. Five recorded findings.",
+   ref="DESIGN.md section 6 C09"),
  "C11": dict(level=MC, thorough=True, tech="TLA+ Pipeline.tla (bounded pipes, end holders, spawn/wait order; deadlock + liveness for all stage-kind/payload/early-exit configurations) + trace validation (Trace_Pipeline.tla) + replay with real sizes against bash",
    text="TLC checks InOrderOnce, AllDelivered, NoLeakedEnds, SpawnBeforeWait, deadlock freedom and termination for every configuration of 3 (thorough 4) stages x payloads around the pipe capacity x early-exit readers, "
         "and shows that the former as-built rule (compound stage run inline) deadlocks; the same configurations are run with real stage kinds and 10 B - 1 MiB (8 MiB) payloads in brush and bash "
